@@ -2,6 +2,7 @@ package rules
 
 import (
 	"fmt"
+	"go/types"
 	"strings"
 
 	"golang.org/x/tools/go/ssa"
@@ -365,4 +366,226 @@ func prepareEnumModel(c *load.Ctx, m *scanModel) error {
 	}
 	m.errIsEOS = func(v pe.Value) bool { return pe.Show(v) == eos }
 	return nil
+}
+
+// --- the glue between the scanner and Document.Check ----------------------------------------------
+
+func init() {
+	register(&Rule{ID: "SA-Jglue", Min: 8, Run: runSAJglue,
+		Doc: "Document.Check adds exactly one rule to the scanner's verdict, read off the code of Document.check and Document.nextLexeme with the scanner's Next() replaced by a staged oracle: a text for which the scanner delivers no lexeme at all is rejected as empty JSON, any text with at least one lexeme is accepted when the scanner ends normally, an error raised by the scanner is returned unchanged, and nextLexeme maps the scanner's end (or its end-top marker) to io.EOF and a panicking DocumentError to a returned error (the product rules SA-J* take this rule as given)"})
+}
+
+func runSAJglue(c *load.Ctx, r *report.RuleResult) {
+	const rel = "formats/json"
+	check := c.Func(rel, "Document.check")
+	nextLexeme := c.Func(rel, "Document.nextLexeme")
+	rewind := c.Func(rel, "Document.rewind")
+	next := c.Func(rel, "scanner.Next")
+	newLex := c.Func("internal/lexeme", "NewLexEvent")
+	if check == nil || nextLexeme == nil || rewind == nil || next == nil || newLex == nil {
+		r.Unk("anchor|formats/json glue", "", "Document.check / nextLexeme / rewind / scanner.Next not found")
+		return
+	}
+	var eofG *ssa.Global
+	if p := c.Prog.ImportedPackage("io"); p != nil {
+		eofG, _ = p.Members["EOF"].(*ssa.Global)
+	}
+	if eofG == nil {
+		r.Unk("anchor|io.EOF", "", "io.EOF not found in the program")
+		return
+	}
+	names := lexEventNames(c)
+	var endTop, lit int64 = -1, -1
+	for v, n := range names {
+		switch n {
+		case "EndTop":
+			endTop = v
+		case "LiteralBegin":
+			lit = v
+		}
+	}
+	emptyCode := ""
+	if p := c.Pkg("errors"); p != nil {
+		if k, ok := p.Types.Scope().Lookup("ErrEmptyJson").(*types.Const); ok {
+			if v, ok := constInt(k); ok {
+				emptyCode = fmt.Sprintf("E%d", v)
+			}
+		}
+	}
+	if endTop < 0 || lit < 0 || emptyCode == "" {
+		r.Unk("anchor|lexeme/error constants", "", "EndTop / LiteralBegin / ErrEmptyJson not found")
+		return
+	}
+	helper := &scanModel{}
+	docT := check.Signature.Recv().Type().(*types.Pointer).Elem()
+	idxT := newLex.Params[1].Type()
+	errT := nextLexeme.Signature.Results().At(1).Type()
+	eofMarker := func() pe.Value { return &pe.Iface{T: errT, V: pe.NewSym("io.EOF", errT)} }
+	base := func() *pe.Config {
+		cfg := newPEConfig(c)
+		cfg.Intrinsics[rewind.String()] = func(in *pe.Interp, args []pe.Value) (pe.Value, bool) {
+			in.Effect("rewind")
+			return nil, true
+		}
+		cfg.Intrinsics["errors.Is"] = func(in *pe.Interp, args []pe.Value) (pe.Value, bool) {
+			return !pe.IsNil(args[0]) && pe.Show(args[0]) == pe.Show(args[1]), true
+		}
+		return cfg
+	}
+	// ---- nextLexeme over the scanner's outcomes
+	{
+		cfg := base()
+		cfg.Intrinsics[next.String()] = func(in *pe.Interp, args []pe.Value) (pe.Value, bool) {
+			labels := []string{"lexeme", "endtop", "end", "panic-docerr"}
+			zero := in.Zero(next.Signature.Results().At(0).Type())
+			switch labels[in.Choose("scanner.Next", labels)] {
+			case "lexeme":
+				return &pe.Tuple{E: []pe.Value{in.Call(newLex, []pe.Value{lit, pe.NewSym("b", idxT), pe.NewSym("e", idxT), pe.NilV{}}), true}}, true
+			case "endtop":
+				return &pe.Tuple{E: []pe.Value{in.Call(newLex, []pe.Value{endTop, pe.NewSym("b", idxT), pe.NewSym("e", idxT), pe.NilV{}}), true}}, true
+			case "end":
+				return &pe.Tuple{E: []pe.Value{zero, false}}, true
+			case "panic-docerr":
+				dt := c.Pkg("errors").Types.Scope().Lookup("DocumentError").Type()
+				in.Panic(&pe.Iface{T: dt, V: pe.NewSym("scannerError", dt)})
+			}
+			return nil, true
+		}
+		want := map[string]string{"lexeme": "lexeme,nil", "endtop": "lexeme,EOF", "end": "none,EOF", "panic-docerr": "none,scannerError"}
+		seen := map[string]bool{}
+		for _, o := range pe.ExploreFn(cfg, func(in *pe.Interp) pe.Value {
+			in.Store(in.GlobalPtr(eofG), eofMarker())
+			return in.Call(nextLexeme, []pe.Value{in.NewStruct(docT, "doc")})
+		}) {
+			ch := o.ChoiceMap()["scanner.Next"]
+			key := "nextLexeme|scanner " + ch
+			seen[ch] = true
+			got := ""
+			switch {
+			case o.Undecided != "":
+				r.Unk(key, c.Pos(nextLexeme.Pos()), o.Undecided)
+				continue
+			case o.Panicked:
+				got = "panic"
+			default:
+				tp, _ := o.Ret.(*pe.Tuple)
+				if tp == nil || len(tp.E) != 2 {
+					r.Unk(key, c.Pos(nextLexeme.Pos()), "unexpected result "+pe.Show(o.Ret))
+					continue
+				}
+				lx := "none"
+				if sv, ok := tp.E[0].(*pe.StructV); ok {
+					for _, f := range sv.F {
+						if s, ok := f.(*pe.Sym); ok && s.Expr == "e" {
+							lx = "lexeme"
+						}
+					}
+				}
+				er := "nil"
+				switch {
+				case pe.IsNil(tp.E[1]):
+				case strings.Contains(pe.Show(tp.E[1]), "io.EOF"):
+					er = "EOF"
+				case strings.Contains(pe.Show(tp.E[1]), "scannerError"):
+					er = "scannerError"
+				default:
+					er = pe.Show(tp.E[1])
+				}
+				got = lx + "," + er
+			}
+			if got == want[ch] {
+				r.OK(key, c.Pos(nextLexeme.Pos()), "result ("+got+")")
+			} else {
+				r.Bad(key, c.Pos(nextLexeme.Pos()), fmt.Sprintf("when the scanner reports %q nextLexeme gives (%s), expected (%s)", ch, got, want[ch]))
+			}
+		}
+		for ch := range want {
+			if !seen[ch] {
+				r.Unk("nextLexeme|scanner "+ch, c.Pos(nextLexeme.Pos()), "no path explored for this scanner outcome")
+			}
+		}
+	}
+	// ---- check over nextLexeme's outcomes
+	{
+		cfg := base()
+		calls := 0
+		cfg.Intrinsics[nextLexeme.String()] = func(in *pe.Interp, args []pe.Value) (pe.Value, bool) {
+			calls++
+			labels := []string{"lexeme", "eof", "error"}
+			if calls >= 3 {
+				labels = []string{"eof", "error"}
+			}
+			zero := in.Zero(nextLexeme.Signature.Results().At(0).Type())
+			switch labels[in.Choose(fmt.Sprintf("nextLexeme#%d", calls), labels)] {
+			case "lexeme":
+				return &pe.Tuple{E: []pe.Value{zero, pe.NilV{}}}, true
+			case "eof":
+				return &pe.Tuple{E: []pe.Value{zero, eofMarker()}}, true
+			}
+			return &pe.Tuple{E: []pe.Value{zero, &pe.Iface{T: errT, V: pe.NewSym("scannerError", errT)}}}, true
+		}
+		for _, o := range pe.ExploreFn(cfg, func(in *pe.Interp) pe.Value {
+			calls = 0
+			in.Store(in.GlobalPtr(eofG), eofMarker())
+			doc := in.NewStruct(docT, "doc")
+			if st, ok := docT.Underlying().(*types.Struct); ok {
+				for i := 0; i < st.NumFields(); i++ {
+					if st.Field(i).Name() == "file" {
+						in.Store(in.FieldPtr(doc, "file"), pe.NewSym("file", st.Field(i).Type()))
+					}
+				}
+			}
+			return in.Call(check, []pe.Value{doc})
+		}) {
+			var seq []string
+			cm := o.ChoiceMap()
+			for n := 1; n <= 3; n++ {
+				if v, ok := cm[fmt.Sprintf("nextLexeme#%d", n)]; ok {
+					seq = append(seq, v)
+				}
+			}
+			key := "check|" + strings.Join(seq, ",")
+			if o.Undecided != "" || o.Panicked {
+				r.Unk(key, c.Pos(check.Pos()), "not interpretable: "+o.Exit())
+				continue
+			}
+			if len(seq) == 0 {
+				// an early exit for a text of length zero (no byte, hence no lexeme) is the same rule
+				if code, ok := helper.docErrCode(o.Ret); ok && code == emptyCode && strings.Contains(o.Valuation(), "len(") && strings.Contains(o.Valuation(), ",0)==") {
+					r.OK("check|empty content", c.Pos(check.Pos()), "a text of length zero is rejected as empty JSON without scanning")
+					continue
+				}
+				r.Bad("check|no scan", c.Pos(check.Pos()), "Document.check returns "+pe.Show(o.Ret)+" on a path that never asks the scanner (valuation "+o.Valuation()+")")
+				continue
+			}
+			last := seq[len(seq)-1]
+			lexemes := len(seq) - 1
+			want, got := "", ""
+			switch {
+			case last == "error":
+				want = "scannerError"
+			case lexemes == 0:
+				want = emptyCode
+			default:
+				want = "nil"
+			}
+			switch {
+			case pe.IsNil(o.Ret):
+				got = "nil"
+			case strings.Contains(pe.Show(o.Ret), "scannerError"):
+				got = "scannerError"
+			default:
+				if code, ok := helper.docErrCode(o.Ret); ok {
+					got = code
+				} else {
+					got = pe.Show(o.Ret)
+				}
+			}
+			if got == want {
+				r.OK(key, c.Pos(check.Pos()), fmt.Sprintf("%d lexeme(s) then %s: returns %s", lexemes, last, got))
+			} else {
+				r.Bad(key, c.Pos(check.Pos()), fmt.Sprintf("after %d lexeme(s) and then %s Document.check returns %s, expected %s (a text is empty JSON exactly when the scanner delivers no lexeme)", lexemes, last, got, want))
+			}
+		}
+	}
 }
